@@ -34,7 +34,7 @@ ASSUMPTIONS = ['laws as listed in DESIGN.md §2 C18']
 EXHAUSTIVE_NOTE = 'orientation laws over all 4^3 triples; position/transform laws over all coordinates in [-3,3] (pairs) / [-2,2] (triples of transforms with all orientations)'
 REQUIRED = {'quick': {'law.orientation_group': 64, 'law.linear': 1000, 'law.isometry': 500, 'law.transform_assoc': 1000,
                       'law.transform_inverse': 200, 'law.transform_action': 1000, 'law.area_image': 500,
-                      'law.grid_rotation': 200, 'law.next_position': 400, 'law.bigint': 500, 'law.mutation_history': 1000}}
+                      'law.grid_rotation': 200, 'law.next_position': 400, 'law.bigint': 500, 'law.mutation_history': 1000, 'law.inplace_operators': 500}}
 O = [Orientation.F, Orientation.R, Orientation.B, Orientation.L]
 
 
@@ -114,6 +114,49 @@ def transform_laws(ctx, triples):
                 and all(set((o * A).positions()) == {o * p for p in A.positions()} for o in O)
                 and set((Position(3, -2) + A).positions()) == {Position(3, -2) + p for p in A.positions()},
                 lambda: f'image of area {A} under {t1} is not the set of images of its positions', dict(pl, area=[list(A.ys), list(A.xs)]))
+
+
+def inplace_operator_laws(ctx, n, rng):
+    """the augmented-assignment spellings (t *= s, o *= p, p += q, p -= q, g *= o) mean the same as the binary operators"""
+    for k in range(n):
+        mag = rng.choice([5, 5, 10**6, 2**70])
+        ri = lambda: rng.randint(-mag, mag)  # noqa: E731
+        t = Transform(Position(ri(), ri()), rng.choice(O))
+        u = Transform(Position(ri(), ri()), rng.choice(O))
+        p, q = Position(ri(), ri()), Position(ri(), ri())
+        o1, o2 = rng.choice(O), rng.choice(O)
+        pl = {'t': [[t.position.y, t.position.x, t.orientation.name], [u.position.y, u.position.x, u.orientation.name], [0, 0, 'FORWARD']],
+              'x': [p.y, p.x]}
+
+        def cond():
+            want = t * u
+            a = Transform(Position(t.position.y, t.position.x), t.orientation)
+            a *= u
+            b = o1
+            b *= o2
+            c = Position(p.y, p.x)
+            c += q
+            d = Position(p.y, p.x)
+            d -= q
+            e = Transform(Position(t.position.y, t.position.x), t.orientation)
+            e *= -e
+            f = o1
+            f *= p  # orientation acting on a position
+            return (a == want and b == o1 * o2 and c == p + q and d == p - q and e == Transform(Position(0, 0), Orientation.F)
+                    and f == o1 * p and u == Transform(Position(u.position.y, u.position.x), u.orientation))
+        law(ctx, 'inplace_operators', cond, lambda: f'an augmented assignment (*=, +=, -=) on {t}, {u}, {p}, {q}, {o1.name}, {o2.name} '
+            f'differs from the binary operator', pl)
+        h, w = rng.randint(1, 4), rng.randint(1, 4)
+        g = Grid([[Wall() if rng.random() < 0.4 else Floor() for _ in range(w)] for _ in range(h)])
+        o = rng.choice(O)
+
+        def cond_g():
+            want = [[id(x) for x in r] for r in (g * o).objects]
+            g2 = g
+            g2 *= o
+            return [[id(x) for x in r] for r in g2.objects] == want
+        law(ctx, 'inplace_operators', cond_g, lambda: f'g *= {o.name} differs from g * {o.name} on a {h}x{w} grid', {'shape': [h, w], 'o': o.name},
+            nontrivial=False)
 
 
 def mutation_history_laws(ctx, n, rng):
@@ -234,6 +277,7 @@ def run(ctx):
         transform_laws(ctx, big)
         position_laws(ctx, [tuple(rng.randint(-10**20, 10**20) for _ in range(4)) for _ in range(ctx.pick(100, 40000))])
         mutation_history_laws(ctx, ctx.pick(600, 5000), rng)
+        inplace_operator_laws(ctx, ctx.pick(600, 8000), rng)
         shapes = [(h, w) for h in range(1, 7) for w in range(1, 8)]
         grid_laws(ctx, [s for i, s in enumerate(shapes) if ctx.mine(i)], rng)
         cases = [(y, x, o, a) for y in (-2, 0, 3) for x in (-1, 0, 5) for o in O for a in Action]
@@ -254,6 +298,8 @@ def replay(ctx, kind, payload):
     elif lawname in ('transform_assoc', 'transform_inverse', 'transform_action', 'area_image'):
         ts = [Transform(Position(t[0], t[1]), Orientation[t[2]]) for t in payload['t']]
         transform_laws(ctx, [(ts[0], ts[1], ts[2], Position(*payload['x']))])
+    elif lawname == 'inplace_operators':
+        inplace_operator_laws(ctx, 300, gen.rng_for('replay'))
     elif lawname == 'mutation_history':
         mutation_history_laws(ctx, 200, gen.rng_for('replay'))
     elif lawname == 'grid_rotation':
